@@ -1216,7 +1216,7 @@ namespace bluetoe {
             {
             }
 
-            std::uint8_t size() const
+            std::size_t size() const
             {
                 return current_ - begin_;
             }
